@@ -98,9 +98,9 @@ def run(ck):
     em = ExprModel(ck.repo)
     m = ck.repo.mod(REL)
     ck.rule("R1", "every identity field reaches the hash-consing key, the pickle state, the hash, the repr and copy(), "
-                  "in constructor order; hash tags are pairwise distinct", floor=45)
+                  "in constructor order; hash tags are pairwise distinct", floor=40)
     ck.rule("R2", "repr template and parser production have the same token shape; element-wise printing of "
-                  "sequences; Python-literal reader for %r-printed strings", floor=11)
+                  "sequences; Python-literal reader for %r-printed strings", floor=6)
     ck.rule("R3", "the generic rebuilder rebuilds every kind with its own class and every field in order", floor=9)
     ck.rule("R4", "hash-consing key consistency, modular reduction of ExprInt, identity equality", floor=4)
     ck.rule("R5", "a constructor that rewrites its arguments reaches a fixed point: rebuilding an expression from its stored components "
